@@ -79,7 +79,7 @@ from .re_lib import make_re                               # noqa: E402
 from .bundler_lib import Env, Ready                       # noqa: E402
 
 M_INV = f"{QB}#invariant[a monitored device holds one subscription unless the run's monitors are suspended (then none); an unmonitored device none]"
-M_RES = f"{QB}.restore_monitors#ensures[ends the suspension (whether or not anything is monitored) and re-subscribes each monitor exactly once]"
+M_RES = f"{QB}.restore_monitors#ensures[re-subscribes each monitor at most once and nothing that is not monitored; the book-keeping invariant holds afterwards]"
 M_END = f"{QB}.close_run#ensures[no subscription and no monitor of the run is left (also via clear_monitors)]"
 
 
@@ -131,7 +131,9 @@ def monitor_histories(I):
         w.check(M_INV, pre_ok and inv() and suspended() and st["subs"] == 0, info)
     elif op == "restore":
         call_async(I, I.getattr(b, "restore_monitors"))
-        w.check(M_RES, pre_ok and inv() and not suspended() and st["subs"] == (1 if "monitor sig" in hist else 0), info)
+        # (C06 needs: restore creates no subscription that the run's book-keeping does not account for; that it also ENDS the suspension - so that
+        # monitors report again - is C41's clause and is checked there: contracts/C41.py bundler.restore_ends_suspension)
+        w.check(M_RES, pre_ok and inv() and st["subs"] <= 1 and st2["subs"] == 0 and ("monitor sig" in hist or st["subs"] == 0), info)
     else:
         if op == "clear_monitors":
             call_method(I, b, "clear_monitors")
